@@ -46,7 +46,7 @@ REQUIRED_CLASSES = [
     'step_at_tolerance_inside', 'step_just_above_splits', 'long_dx_rescues_step', 'dtype_float64', 'dtype_int64',
     'dtype_datetime64', 'collapse_ok', 'collapse_empty', 'min_n_as_variable', 'long_series', 'real_uuid_label',
     'inphase_keep', 'inphase_drop', 'inphase_dontcare', 'inphase_empty_result', 'inphase_all_kept', 'inphase_int_dtype',
-    'inphase_negative', 'inphase_zero', 'coord_all_positive', 'coord_all_negative', 'coord_reaches_or_crosses_zero',
+    'inphase_negative', 'inphase_zero', 'coord_first_step_equals_mean_step', 'coord_all_positive', 'coord_all_negative', 'coord_reaches_or_crosses_zero',
 ]
 CHUNK = 4
 
@@ -98,6 +98,16 @@ def cases(tier):
                         continue  # 6 points: the other positions of the long coordinate step only for float64
                     for h in itertools.product(range(6), repeat=2):
                         out.append({'kind': 'short', 'n': n, 'dtype': dt, 'dxpos': dxpos, 'head': list(h)})
+    # coordinate steps with two different long steps whose mean equals the first step (a "looks regularly sampled"
+    # shortcut that only compares the first step with the mean step takes these for uniform)
+    for dxs in ([2, 1, 3], [2, 3, 1], [2, 1, 3, 2], [2, 2, 1, 3], [3, 1, 5, 3]):
+        n = len(dxs) + 1
+        for dt in DTYPES:
+            if n <= 4:
+                out.append({'kind': 'short', 'n': n, 'dtype': dt, 'dxpos': -1, 'dxs': dxs, 'head': []})
+            else:
+                for h in range(6):
+                    out.append({'kind': 'short', 'n': n, 'dtype': dt, 'dxpos': -1, 'dxs': dxs, 'head': [h]})
     # coordinate origin: all-positive (default 3), ending at / crossing zero, all-negative (time relative to a trigger)
     base = [c for c in out if c['kind'] == 'short' and (c['n'] <= 4 or tier == 'thorough') and c['n'] <= 5]
     for c in base:
@@ -260,7 +270,9 @@ def judge_find(rec, da, xs, ys, atol_value, min_n, model_runs, *, sub, min_n_arg
 def run_short(case, rec):
     n, dt, dxpos, head = case['n'], case['dtype'], case['dxpos'], case['head']
     rec.cls('dtype_' + dt)
-    dxs = [2 if i == dxpos else 1 for i in range(n - 1)]
+    dxs = case.get('dxs') or [2 if i == dxpos else 1 for i in range(n - 1)]
+    if case.get('dxs'):
+        rec.cls('coord_first_step_equals_mean_step')
     xs = [case.get('x0', X0)]
     for d in dxs:
         xs.append(xs[-1] + d)
